@@ -25,6 +25,8 @@ type Director struct {
 	n    int
 	// faultWithdrawOnly: storage errors are armed only while a withdrawal is in flight
 	faultWithdrawOnly bool
+	// faultConnectOnly: ... only while a registration is in flight
+	faultConnectOnly bool
 	// lastNonce per identity (director-side monotone nonces)
 	lastNonce map[string]int64
 	// lastOld: argument list of the identity's last accepted old-format keep-alive (for replays)
@@ -284,6 +286,10 @@ func (d *Director) Connect(a *Actor, payout, override string, legacy bool) error
 	defer cancel()
 	var err error
 	var hostsGot []store.Node
+	if d.faultConnectOnly {
+		w.YS.SetDisarmed(false)
+		defer w.YS.SetDisarmed(true)
+	}
 	switch {
 	case legacy && a.IsHost:
 		_, err = a.rp().Host(ctx, pool.HostRequest{Kind: a.Kind, Payout: payout, NodeURI: override})
@@ -300,6 +306,15 @@ func (d *Director) Connect(a *Actor, payout, override string, legacy bool) error
 	d.logf("%s -> %v", op, err)
 	_ = hostsGot
 
+	if err != nil && strings.Contains(err.Error(), "injected I/O error") {
+		// the registration failed on a storage error: the host is not registered by it (its previous registration,
+		// if any, stands)
+		if d.on["C09"] {
+			d.checkRegistry(op + " (failed: " + err.Error() + ")")
+		}
+		d.desync = true // what the failed attempt left in the store is not modelled: the run ends here
+		return err
+	}
 	if isVerifyFailed(err) {
 		d.bad("C04", "verify", "correctly signed fresh request refused", "%s: %v", op, err)
 		d.checkLedger(led, op, new(big.Int), "a refused request")
